@@ -531,6 +531,7 @@ pub fn run(run: &Run) {
         }
         let opts = BfsOptions { max_depth: Some(depth), max_states: Some(if thorough { 20_000_000 } else { 1_500_000 }), ..Default::default() };
         let (stats, viols) = bfs(&g, vec![cur], &opts);
+        run.sample_paths(&name, &stats.sample_paths);
         ts += stats.states;
         tt += stats.transitions;
         ti += stats.impl_steps;
@@ -589,6 +590,7 @@ pub fn run(run: &Run) {
                 let depth = if thorough { 6 } else { 4 };
                 let opts = BfsOptions { max_depth: Some(depth), max_states: Some(if thorough { 10_000_000 } else { 1_000_000 }), ..Default::default() };
                 let (stats, viols) = bfs(&g, vec![cur], &opts);
+                run.sample_paths(&name, &stats.sample_paths);
                 ts += stats.states;
                 tt += stats.transitions;
                 ti += stats.impl_steps;
